@@ -134,7 +134,7 @@ def _two_sides(job, name, res):
 
 
 def job_continuity(job):
-    sp = _uf("c_o_Spivey")
+    sp = _uf("c_o_Spivey", like=__import__("bluebonnet.fluids.oil", fromlist=["x"]).oil_compressibility_undersat_Spivey)
     oil, vs, dom, a4 = _setup(job, extra=dict(p=(15, 50000)), oil_compressibility_undersat_Spivey=sp)
     job.encoded(oil, "solution_gor_Standing", "b_o_Standing", "density_Standing", "viscosity_beggs_robinson",
                 "_mu_dead_to_live_br", "pressure_bubblepoint_Standing", "b_o_bubblepoint_Standing")
@@ -200,7 +200,7 @@ def job_rs(job):
 
 
 def job_bo(job):
-    sp = _uf("c_o_Spivey")
+    sp = _uf("c_o_Spivey", like=__import__("bluebonnet.fluids.oil", fromlist=["x"]).oil_compressibility_undersat_Spivey)
     oil, vs, dom, a4 = _setup(job, extra=dict(p1=(15, 50000), p2=(15, 50000)), oil_compressibility_undersat_Spivey=sp)
     job.encoded(oil, "b_o_Standing", "b_o_bubblepoint_Standing", "solution_gor_Standing")
     job.stub("oil_compressibility_undersat_Spivey: positive uninterpreted function (its positivity over the box is a "
